@@ -15,6 +15,7 @@ from vt.dtmodel import DT, MIN, TZ, US
 from vt.props import _sched
 
 ID = "C14"
+CROSSCHECK = 40  # thorough tier: obligations per case re-decided by the cvc5 binary
 LEVEL = "other"
 TECHNIQUE = "path-wise symbolic execution of get_task_delay with z3 over unbounded integer microseconds + QF_BVFP lemma"
 EXPLANATION = (
